@@ -23,39 +23,42 @@ def meta_of(root, tokens):
 
 
 def gen(rng, driver):
+    """With --no-clobber an existing DIRECTORY at a directory's target already stops the walk, so collisions can only
+    be met at the targets of the sources themselves (DEST/<basename>, or DEST under -T): sources of every kind,
+    colliding entries of every kind, at any position among the sources."""
     sc = treerun.Scn(); sc.driver = driver; sc.workers = rng.choice([1, 2, 4, 8])
-    sc.d(b'/W').d(b'/X').f(b'/X/ext').d(b'/W/S')
-    ents = treegen.gen_subtree(rng, sc, b'/W/S', rng.randint(1, 3), rng.randint(2, 4), links=True, specials=rng.random() < 0.3)
-    if not ents:
-        sc.f(b'/W/S/only'); ents = [(b'/W/S/only', 'f')]
-    mode = rng.choice(['T', 'into'])
-    destroot = b'/W/DEST' if mode == 'T' else b'/W/DEST/S'
-    collide = rng.random() < 0.8
-    destk = rng.choice(['absent', 'present'])
+    sc.d(b'/W').d(b'/X').f(b'/X/ext').d(b'/W/DEST').f(b'/W/DEST/keep').d(b'/W/DEST/keepdir').f(b'/W/DEST/keepdir/inner')
+    nsrc = rng.choice([1, 1, 2, 3])
+    names = treegen.pick_names(rng, nsrc, avoid=(b'-dash', b'*star', b'q?', b'\xff\xfe'))
+    srcs = []
+    for n in names:
+        p = b'/W/' + n
+        k = rng.choice(['f', 'f', 'd', 'l', 's'])
+        if k == 'f': sc.f(p)
+        elif k == 'd':
+            sc.d(p); treegen.gen_subtree(rng, sc, p, rng.randint(0, 2), 3, links=True, specials=rng.random() < 0.3)
+        elif k == 'l': sc.l(p, rng.choice([b'/X/ext', b'nowhere', b'DEST/keep']))
+        else: sc.s(p, 'fifo')
+        srcs.append((n, k))
     sc.coll = None
-    if destk == 'present' or collide:
-        if mode == 'into':
-            sc.d(b'/W/DEST'); sc.f(b'/W/DEST/keep')
-    if collide:
-        p, k = rng.choice(ents)
-        rel = p[len(b'/W/S'):]
-        # ancestors of the colliding entry must exist in the destination
-        parts = rel.split(b'/')[1:]
-        cur = destroot
-        if mode == 'T' or True:
-            sc.d(destroot) if not any(e['p'] == destroot for e in sc.entries) else None
-        for part in parts[:-1]:
-            cur += b'/' + part; sc.d(cur)
-        tgt = destroot + rel
+    single_T = nsrc == 1 and rng.random() < 0.3
+    if rng.random() < 0.8:
+        n, k = rng.choice(srcs)
+        tgt = b'/W/DEST/' + (b'T-' + n if single_T else n)
         ck = rng.choice(['file', 'dir', 'link-live', 'link-dangling', 'fifo'])
         if ck == 'file': sc.f(tgt)
         elif ck == 'dir': sc.d(tgt); sc.f(tgt + b'/old')
         elif ck == 'link-live': sc.l(tgt, b'/X/ext')
         elif ck == 'link-dangling': sc.l(tgt, b'/X/not-there')
         else: sc.s(tgt, 'fifo')
-        sc.coll = (rel, k, ck)
-    sc.opts = ['r', 'n'] + (['T'] if mode == 'T' else [])
-    sc.paths = [b'S', b'DEST']
+        sc.coll = (n, k, ck)
+    sc.opts = ['r', 'n'] + (['T'] if single_T else [])
+    # option combinations must not weaken no-clobber
+    sc.extra = rng.choice([[], [], ['--backup=numbered'], ['--backup=auto'], ['--fsync'], ['--no-perms'], ['--reflink=never'], ['--no-timestamps'], ['--no-progress'], ['--no-progress']])
+    if single_T:
+        sc.paths = [names[0], b'DEST/T-' + names[0]]
+    else:
+        sc.paths = [n for n, _ in srcs] + [b'DEST']
     sc.meta = dict(dest=b'/W/DEST')
     return sc
 
@@ -66,13 +69,20 @@ def run(ctx):
     rng = ctx.rng
     n = 120 if ctx.quick else 2500
     # corpus: the repaired defect F6 (dangling symlink at the target)
-    c0 = treerun.Scn(); c0.d(b'/W').d(b'/X').d(b'/W/S').f(b'/W/S/f').d(b'/W/DEST').l(b'/W/DEST/f', b'/X/outside'); c0.opts = ['r', 'n', 'T']; c0.paths = [b'S', b'DEST']
-    c0.coll = (b'/f', 'f', 'link-dangling'); c0.meta = dict(dest=b'/W/DEST')
-    scs = [c0] + [gen(rng, ['parfile', 'parblock'][i % 2]) for i in range(n)]
+    c0 = treerun.Scn(); c0.d(b'/W').d(b'/X').f(b'/W/f').d(b'/W/DEST').l(b'/W/DEST/f', b'/X/outside'); c0.opts = ['n']; c0.paths = [b'f', b'DEST']
+    c0.coll = (b'f', 'f', 'link-dangling'); c0.meta = dict(dest=b'/W/DEST'); c0.extra = []
+    # corpus 2: the existence test must be made for EVERY entry, also when an earlier source's link makes a later source's
+    # directory resolve into an existing one (two sources with one base name; forced schedule)
+    c1 = treerun.Scn(); c1.d(b'/W').d(b'/W/s1').d(b'/W/s1/data').l(b'/W/s1/x', b'data').d(b'/W/s2').d(b'/W/s2/x').f(b'/W/s2/x/keep.txt').d(b'/W/DEST').d(b'/W/DEST/data').f(b'/W/DEST/data/keep.txt')
+    c1.opts = ['r', 'n']; c1.paths = [b's1/x', b's2/x', b'DEST']; c1.coll = (b'x/keep.txt', 'f', 'file'); c1.meta = dict(dest=b'/W/DEST'); c1.extra = []
+    c1.forced_plan = ['stallp symlink * 300000', 'stallp mkdir * 1200000']; c1.no_model = True
+    scs = [c0, c1] + [gen(rng, ['parfile', 'parblock'][i % 2]) for i in range(n)]
     runs = []
     with core.Scratch('c08') as base:
         for i, sc in enumerate(scs):
             plan = [f'sched {ctx.seed * 77 + i} {rng.choice(["pct", "delay"])} {rng.randint(1, 3)}'] if i % 3 == 0 else None
+            plan = getattr(sc, 'forced_plan', plan)
+            plan = getattr(sc, 'forced_plan', plan)
             root = base + '/R'
             o = treerun.run(base, sc, plan=plan, trace=True)
             o.meta_after = meta_of(o.root, o.after)
@@ -116,6 +126,8 @@ def run(ctx):
             ctx.violation(f'case-{i}.json', dict(argv=[repr(x) for x in o.argv], collision=[repr(x) for x in sc.coll] if sc.coll else None, plan=plan, exit=o.res.cls,
                                                  diff=treerun.diff_tokens(o.after, o.before, 20), oracle=bad), f'C08: {bad}')
             continue
+        if getattr(sc, 'no_model', False):
+            continue      # two sources onto one name: outside the sequential model's distinct-target fragment
         # ---- correspondence: exit class; on success the whole end state
         ctx.cov['traces_validated_against_impl'] += 1
         ex, rej, toks = treerun.model_snapshot(a)
